@@ -185,7 +185,9 @@ class SourceToSourceFileImportsTransformation(SourceToSourceTransformationBase):
             if block.input.endpos.lineno <= max_lineno+1 ]
         if not annotated_blocks:
             raise NoImportBlockError()
-        annotated_blocks.sort()
+        # Sort by the annotation only: blocks themselves are not orderable, and
+        # ties (e.g. two newly inserted blocks) keep their relative order.
+        annotated_blocks.sort(key=lambda annotated: annotated[0])
         if imp.split.module_name == '__future__':
             # For __future__ imports, only add to an existing block that
             # already contains __future__ import(s).  If there are no existing
